@@ -159,12 +159,40 @@ impl<'a> Context<'a> {
             return Ok(cached.clone());
         }
         let element = match self.as_of {
-            Some(seq) => self.store.element_at(&self.space, id, seq).await?,
-            None => self.store.get_element(id).await.ok(),
+            Some(seq) => {
+                let past = self.store.element_at(&self.space, id, seq).await?;
+                self.admit_past(past).await
+            }
+            None => {
+                let present = self.store.get_element(id).await.ok();
+                self.admit(present)
+            }
         };
-        let element = self.admit(element);
         self.loaded.insert(id, element.clone());
         Ok(element)
+    }
+
+    /// Applies the read decision to a version read at a past coordinate.
+    ///
+    /// The version row carries the governance block the element had *then*,
+    /// but the read is happening now, by this caller: an element that has been
+    /// reclassified out of the caller's reach since is outside its universe at
+    /// every coordinate, or `AS OF` would be the way around a
+    /// reclassification. So the decision is taken on the element as it is
+    /// governed today, and only the content comes from the past.
+    ///
+    /// An element that has since been erased leaves nothing to authorize
+    /// against; a restricted caller does not see it — the conservative
+    /// direction, as in the journal (`meta::history`). A caller whose authority
+    /// reaches the whole Space has nothing to be narrowed by and skips the
+    /// extra read.
+    async fn admit_past(&mut self, past: Option<Element>) -> Option<Element> {
+        let past = past?;
+        if self.authority.reads_whole_space(self.auth) {
+            return self.admit(Some(past));
+        }
+        let present = self.store.get_element(past.id()).await.ok()?;
+        self.admit_governed(past, &present)
     }
 
     /// Applies the read decision to one loaded element, caching its view.
@@ -176,6 +204,21 @@ impl<'a> Context<'a> {
     pub(crate) fn admit(&mut self, element: Option<Element>) -> Option<Element> {
         let element = element?;
         let constraints = self.authority.may_read(&element, self.auth)?;
+        Some(self.admitted(element, constraints))
+    }
+
+    /// As [`Context::admit`], deciding on `governed` — the same element as it
+    /// is governed now — while rendering `element`.
+    fn admit_governed(&mut self, element: Element, governed: &Element) -> Option<Element> {
+        let constraints = self.authority.may_read(governed, self.auth)?;
+        Some(self.admitted(element, constraints))
+    }
+
+    fn admitted(
+        &mut self,
+        element: Element,
+        constraints: crate::governance::rows::AuthorityConstraints,
+    ) -> Element {
         if let Some(limit) = constraints.max_results.map(|limit| limit as usize) {
             self.governed_limit = Some(
                 self.governed_limit
@@ -185,7 +228,7 @@ impl<'a> Context<'a> {
         let mut view = crate::view::render(&element);
         crate::governance::redact::apply(&mut view, &constraints, self.read_origin);
         self.views.insert(element.id(), Arc::new(view));
-        Some(element)
+        element
     }
 
     /// The rendered view of an already-loaded element.
@@ -295,7 +338,7 @@ impl<'a> Context<'a> {
                 // It still goes through `admit`, because a past coordinate is
                 // not a way around the present's authorization — the read is
                 // happening now, by this caller.
-                let admitted = self.admit(Some(element));
+                let admitted = self.admit_past(Some(element)).await;
                 self.loaded.insert(id, admitted.clone());
                 if admitted.is_some() {
                     ids.push(id);
